@@ -139,6 +139,8 @@ def square_e2(sx):
                 inputs=None if model is None else {"n": int(model.get("n", 4))}, seconds=res.queries[-1]["seconds"],
                 detail=None if model is None else "n=%s k=%s" % (model.get("n"), model.get("k")),
                 sample=dict(kind="E2 obligation", kernel="_initialize_boundary[SQUARE]", goal="s(k) < s(k+1) for all n>=4", result=res.queries[-1]["result"]))
+    if getattr(res, "cross_checked", 0) and hasattr(sx, "samples"):
+        sx.samples.insert(0, dict(kind="second solver", note="cvc5 gave the same verdict as z3 on %d E2 queries" % res.cross_checked))
     st, model = prove("start", z3.And(n >= 4, k == 0), z3.And(u == 0, v == 0), res)
     sx.external("square: the first border vertex is the corner (0,0)", st, inputs=None if model is None else {"n": int(model.get("n", 4))},
                 seconds=res.queries[-1]["seconds"])
